@@ -11,7 +11,7 @@ theorem samplingOf_swap (m : Sampling) (w1 w2 : List ℚ) : samplingOf m.swap w2
 
 theorem toWave_self (s : USpec) : toWave s.wu s = s := by
   cases s with
-  | mk wave value wu vu => cases vu <;> simp [toWave, waveTo_self]
+  | mk wave value wu vu => cases vu <;> simp [toWave_eq, waveTo_self]
 
 /-- `y` is the value at `x` of the piecewise-linear function through the points `(xs[i], ys[i])` — the mathematical
 interpolant, stated without reference to the model's `seg`/`interpAt` -/
